@@ -10,7 +10,7 @@ import json
 import os
 import re
 
-from .. import core, gen_config, gen_rust, rustlex
+from .. import core, gen_config, gen_rust, prng, rustlex
 from ..engine import Verdict
 
 core.PROC_TIMEOUT = float(os.environ.get("VERIF_C16_TIMEOUT", "20"))
@@ -276,6 +276,13 @@ def gen_cfg_macro(rng):
 
 
 def generate(rng, tier):
+    pr = prng.Rng(prng.mix(rng.seed, "c16-reader-gone"))  # a side stream: the main stream stays what it was
+    if pr.chance(3):
+        # lane P: the reader of standard output has gone away (EPIPE, and SIGPIPE for a process that does not ignore
+        # it) when the result of a source given on standard input is printed
+        return {"lane": "P", "text": gen_rust.unformatted(pr, 1 + pr.below(3)), "nth": pr.choice([1, 1, 2]),
+                "emit": pr.choice([[], [], ["--emit", "stdout"], ["-l"], ["--emit", "json"], ["--emit", "checkstyle"]]),
+                "hashseed": pr.below(1 << 32)}
     if rng.chance(6) or os.environ.get("VERIF_C16_LANE") == "S":  # (the variable: a deeper look at this lane by hand)
         text, desc, cfg = gen_seeded(rng)
         return {"lane": "B", "source": "seeded-constructs", "text": text, "mutations": desc or ["none"], "depth": 0, "badutf8": False,
@@ -440,6 +447,21 @@ def execute(case):
                     list(case["emit"]) + [root], res.status(), core.text_of(res.stderr)[-300:]))
             v.probe("module-cycle")
             v.sample = v.sample or {"lane": "Y", "status": res.status()}
+            return v
+        if case["lane"] == "P":
+            sc.fresh_world({"files": {"w/.keep": ""}})
+            plan = ["* write %d @1 errno 32" % case["nth"]]
+            res = core.run_inv(sc, {"argv": list(case["emit"]), "cwd": "w", "hashseed": case["hashseed"], "stdin": case["text"], "plan": plan})
+            v.account(res)
+            v.planned("epipe")
+            if any(e.fault for e in res.events) or res.signal == 13:
+                v.fired("epipe")
+                ab = core.abnormal(res)
+                if ab:
+                    v.add("C16:%s|reader-of-stdout-gone" % ab, "source on standard input, %s, the reader of standard output is gone at write %d: status=%s stderr=%r" % (
+                        case["emit"] or "default emitter", case["nth"], res.status(), core.text_of(res.stderr)[:200]))
+                v.probe("reader-of-stdout-gone")
+            v.sample = v.sample or {"lane": "P", "plan": plan, "status": res.status()}
             return v
         if case["lane"] == "D":
             files = {"w/main.rs": ("mod input;\n" if case["module"] else "") + case["text"]}
